@@ -198,6 +198,7 @@ def build(case: dict[str, Any], garbage: float | None, memo: bool) -> tuple[EnOp
     b = np.array(case["offsets"], dtype=np.float64).reshape(r_n, k_n + c_n)
     ev: Any = AffineEvaluator(a[:, :k_n], b[:, :k_n], a[:, k_n:] if c_n else None, b[:, k_n:] if c_n else None,
                               garbage=garbage, info=case["info"])
+    ev.use_summary = bool(case.get("use_summary"))
     if memo:
         ev = Memo(ev)
     elif case.get("readonly"):
@@ -520,7 +521,7 @@ def hypothesis_shard(item: dict[str, Any]) -> Collector:
             "design": [draw(st.sampled_from([-1.0, 1.0, 0.5, 0.0])) for _ in range(r_n * p_n * n)],
             "estimator": draw(st.sampled_from([None, None, "mean", "stddev"])) if r_n > 1 else None,
             # an objective that is only monitored (objective weight 0) is still evaluated and reported
-            "obj_weights": [1.0] + [draw(st.sampled_from([0.0, 0.0, 2.0])) for _ in range(k_n - 1)] if k_n > 1 and draw(st.booleans()) else None, "huge": draw(st.sampled_from([False, False, False, False, True, True, "extreme"])),
+            "obj_weights": [1.0] + [draw(st.sampled_from([0.0, 0.0, 2.0])) for _ in range(k_n - 1)] if k_n > 1 and draw(st.booleans()) else None, "huge": draw(st.sampled_from([False, False, False, False, True, True, "extreme"])), "use_summary": draw(st.booleans()),
             "history": history, "memo": draw(st.booleans()), "readonly": draw(st.booleans()), "ro_x": draw(st.booleans()),
             "info": draw(st.booleans()), "layout": draw(st.sampled_from([None, None, "fortran", "strided", "float32", "integer"])),
             "transforms": tr, "vscale": [draw(st.sampled_from([0.5, 2.0, 4.0])) for _ in range(n)],
